@@ -107,6 +107,7 @@ func RunC01(c *Ctx, r *Report) {
 		r.Func(c.FuncName(fn))
 	}
 	c.protectTotality(r, prefix)
+	c.wrapOfNilRule(r, prefix+"error.wrap-of-nil", c.Reachable(a.EncodeEncrypt, a.DecodeDecrypt), 20)
 	ruleH := prefix + "mac-stateless"
 	r.Rule(ruleH, "the checksum of a message is a function of the message alone: every hash Write in calculateIntegrity is preceded by Reset on the same object on every path (the integrity objects are long-lived; Sum does not reset them)", 1)
 	c.hashTypestate(r, ruleH, a.calculateIntegrity)
